@@ -522,6 +522,20 @@ Definition decode_scal (k : skind) (count : Z) (bs : list N) (pos : N) : res (va
     Ok (v, rest, pos + hl + N.of_nat (n * w))
   end.
 
+(* the element loop of Array.decode and the field loop of List.decode, over the decoder one level down *)
+Fixpoint dec_items (dec : list N -> N -> res (val * list N * N)) (cnt : nat) (r : list N) (pos : N) (acc : list val)
+  : res (val * list N * N) :=
+  match cnt with
+  | O => Ok (VArr (rev acc), r, pos)
+  | S c => do (v, r', pos') <- dec r pos; dec_items dec c r' pos' (v :: acc)
+  end.
+Fixpoint dec_fields (dec : ty -> list N -> N -> res (val * list N * N)) (cnt : nat) (fs : list (string * ty))
+  (r : list N) (pos : N) (acc : list val) : res (val * list N * N) :=
+  match cnt, fs with
+  | S c, (_, ft) :: fs' => do (v, r', pos') <- dec ft r pos; dec_fields dec c fs' r' pos' (v :: acc)
+  | _, _ => Ok (VRec (rev acc ++ map (fun x => default (snd x)) fs), r, pos)
+  end.
+
 Fixpoint py_decode (fuel : nat) (t : ty) (bs : list N) (pos : N) {struct fuel} : res (val * list N * N) :=
   match fuel with
   | O => Err EOutOfFuel
@@ -532,21 +546,12 @@ Fixpoint py_decode (fuel : nat) (t : ty) (bs : list N) (pos : N) {struct fuel} :
       do (r, _, len_, hl) <- decode_item_header (Some fc_Array) bs;
       (* every element reads at least its format byte: more elements than bytes must fail *)
       if (N.of_nat (List.length r) <? len_) then Err EIndex else
-      (fix items (cnt : nat) (r : list N) (pos : N) (acc : list val) : res (val * list N * N) :=
-         match cnt with
-         | O => Ok (VArr (rev acc), r, pos)
-         | S c => do (v, r', pos') <- py_decode f e r pos; items c r' pos' (v :: acc)
-         end) (N.to_nat len_) r (pos + hl) []
+      dec_items (py_decode f e) (N.to_nat len_) r (pos + hl) []
     | TRec fs =>
       do (r, _, len_, hl) <- decode_item_header (Some fc_List) bs;
       if (nlen fs <? len_) then Err EIndex else
       (* the first `len_` fields are decoded, the others keep their defaults *)
-      (fix fields (cnt : nat) (fs : list (string * ty)) (r : list N) (pos : N) (acc : list val)
-         : res (val * list N * N) :=
-         match cnt, fs with
-         | S c, (_, ft) :: fs' => do (v, r', pos') <- py_decode f ft r pos; fields c fs' r' pos' (v :: acc)
-         | _, _ => Ok (VRec (rev acc ++ map (fun x => default (snd x)) fs), r, pos)
-         end) (N.to_nat len_) fs r (pos + hl) []
+      dec_fields (py_decode f) (N.to_nat len_) fs r (pos + hl) []
     | TDyn allowed count =>
       do (_, code, _, _) <- decode_item_header None bs;
       match dkind_of_code code with
